@@ -730,6 +730,36 @@ func runC13(c *Ctx) {
 				}
 			}
 			c.check(tested && !reLoops, "R4", spec.fn+" leaves the loop on the first error", pos(site), "err != nil returns", "after a failed chunk the loop can continue: a count beyond the failure is returned or the error of a later chunk wins")
+			// the chunk's own error is examined on every path that goes on or reports success: a test of a variable that
+			// merges it with another error (the source's read error, say) lets a failed write slip through when the
+			// other error is set
+			isOwnTest := func(in ssa.Instruction) bool {
+				switch x := in.(type) {
+				case *ssa.If:
+					if b, ok := x.Cond.(*ssa.BinOp); ok && (b.Op == token.NEQ || b.Op == token.EQL) {
+						return b.X == ssa.Value(errEx) || b.Y == ssa.Value(errEx)
+					}
+				case *ssa.Return:
+					for _, r := range x.Results {
+						if r == ssa.Value(errEx) {
+							return true
+						}
+					}
+				}
+				return false
+			}
+			goesOn := func(in ssa.Instruction) bool {
+				if isLoopHeadStart(l)(in) {
+					return true
+				}
+				if r, ok := in.(*ssa.Return); ok && isReturn(in) && len(r.Results) > 0 {
+					return isNilConst(r.Results[len(r.Results)-1])
+				}
+				return false
+			}
+			slips := reachAvoiding(fn, site, goesOn, isOwnTest)
+			c.check(!slips, "R4", spec.fn+" examines the chunk's own error", pos(site), "tested (or returned) on every path to the next chunk or to a nil result",
+				"the error of "+spec.callee+" is only examined through a variable shared with another error: when that other error is set (a short last read from the source), a failed chunk is ignored and the call reports success")
 		}
 	}
 
